@@ -38,6 +38,16 @@ def cases(tier, variants):
     mcs = (1, 2, 3, 5) if tier == "thorough" else (1, 3, 5)
     for b in H.base_runs(variants, maxcors=mcs):
         yield dict(b, part="base")
+    # runs with failed line searches and memory resets (one trial per search on oscillating
+    # objectives), and a user gradient that refills and returns one work array
+    for v in variants:
+        for fam in ("coswell", "oscil", "rastrigin"):
+            for mls in (1, 2):
+                for m in (1, 3):
+                    yield dict(kind="nonconvex", fam=fam, n=3, box="box", start="in", var=v,
+                               maxcor=m, label=f"{fam}3", part="base", maxls=mls)
+    for b in H.base_runs(variants, maxcors=(3,), small=True):
+        yield dict(b, part="base", user="samebuf")
     # the same, with an update function that really redefines the objective (rescales it
     # by 0.5 after iteration 3): states, stopped runs and restarts all use it
     for b in H.base_runs(variants, maxcors=(3,), small=(tier == "quick")):
@@ -54,9 +64,12 @@ def run(case):
 
     def fresh(fault=None, start_scaled=False):
         """fresh user callables (with their own redefinition state) for one run"""
-        obs = F.Obs(p.f, p.g, p.lb, p.ub, fault=fault)
+        obs = F.Obs(p.f, p.g, p.lb, p.ub, fault=fault, user=case.get("user", "pure"))
         if case.get("upd") != "scale3":
-            return obs, dict(fun=obs.fun, jac=obs.jac)
+            kwb = dict(fun=obs.fun, jac=obs.jac)
+            if case.get("maxls"):
+                kwb["maxls"] = case["maxls"]
+            return obs, kwb
         sc = [0.5 if start_scaled else 1.0]
         ncall = [0]
 
@@ -154,6 +167,21 @@ def run(case):
                           fields=bad, k=len(held)))
             continue
         k = state_k[len(held) - 1] if len(held) <= len(state_k) else None
+        if k is not None and k == int(ref.nit) and k < K and k == int(snap.nit) and \
+                len(held) == len(states):
+            # the uninterrupted run ended by itself at this iteration: so must the restart
+            try:
+                r = H.solve(p, case, K, checkpoint=copy.deepcopy(snap),
+                            **fresh(start_scaled=(k >= 3))[1])
+                nex += 1
+                if str(r.message) != str(ref.message) or H.relerr(r.x, ref.x) > TOL:
+                    viol.append(V("restart_from_last_state_ends_differently", _case=sub(j), k=k,
+                                  restart=(int(r.nit), str(r.message)),
+                                  uninterrupted=(int(ref.nit), str(ref.message))))
+            except core.CaseTimeout:
+                raise
+            except Exception as e:
+                viol.append(V("restart_from_callback_state_raises", _case=sub(j), exc=repr(e)))
         if k is not None and k + 1 in iter_x and k == int(snap.nit):
             try:
                 # after the redefinition (update call 3 = after iteration 3) the user
@@ -165,6 +193,11 @@ def run(case):
                 if err > TOL:
                     viol.append(V("restart_from_callback_state_diverges", _case=sub(j), k=k,
                                   err=err))
+                u = runs[k + 1]
+                if int(r.nit) != int(u.nit) or str(r.message) != str(u.message):
+                    viol.append(V("restart_from_callback_state_ends_differently", _case=sub(j),
+                                  k=k, restart=(int(r.nit), str(r.message)),
+                                  uninterrupted=(int(u.nit), str(u.message))))
                 # the kept state must survive being used as a checkpoint, whatever the
                 # options of the restart (here: with a gradient scaler)
                 H.solve(p, case, k + 1, checkpoint=live, gradient_scaler=(lambda *a: 0.5),
